@@ -85,7 +85,15 @@ static void
 env_complete(nni_aio *aio)
 {
 	int i = env_slot(aio);
-	CHECK(env_tab[i].owed == 1, "aio completed although no operation is outstanding on it (double or stray completion)");
+	if (aio->a_task.task_cb == NULL) {
+		/* user aio: exactly one completion per announced submission */
+		CHECK(env_tab[i].owed == 1, "aio completed although no operation is outstanding on it (double or stray completion)");
+	} else {
+		/* internal aio: providers such as core/msgqueue.c may complete it without
+		 * arming it; what must never happen is a second completion before the
+		 * callback of the previous one has run */
+		CHECK(aio->a_task.task_busy == 0, "internal aio completed again before the callback of its previous completion ran (double completion)");
+	}
 	env_tab[i].owed = 0;
 	env_tab[i].completed++;
 	env_aio_total_completions++;
@@ -280,6 +288,17 @@ bool
 nni_aio_start(nni_aio *aio, nni_aio_cancel_fn cancel, void *data)
 {
 	bool timeout = false;
+
+	/* an internal aio (one with a callback) handed to a real provider such as
+	 * core/msgqueue.c is announced by the provider's own nni_aio_start; user
+	 * aios and pipe transfers are announced explicitly (env_aio_submit) */
+	if (aio->a_task.task_cb != NULL) {
+		int i_ = env_slot(aio);
+		if (env_tab[i_].owed == 0) {
+			env_tab[i_].owed      = 1;
+			env_tab[i_].completed = 0;
+		}
+	}
 
 	if (!aio->a_sleep && !aio->a_use_expire) {
 		switch (aio->a_timeout) {
